@@ -322,8 +322,10 @@ pub fn parse_proj(definition: &str) -> Result<String, Error> {
             // Mutating the Vec we are iterating over may seem dangerous but is
             // OK as we break out of the loop immediately after the mutation
             if element.starts_with("proj=") {
-                elements.swap(i, 0);
-                elements[0] = elements[0][5..].to_string();
+                // (moving it, not swapping: the order of the other elements matters
+                // when a key is given more than once)
+                let proj = elements.remove(i);
+                elements.insert(0, proj[5..].to_string());
 
                 // In the proj=pipeline case, just collect the globals, without
                 // introducing a new step into geodesy_steps
